@@ -3,7 +3,7 @@
     there is no [Extract Constant].  The number type is a type parameter: the driver
     supplies OCaml floats. *)
 From Coq Require Import ExtrOcamlBasic.
-From GS Require Import Num EventLoop Kernel Geo Sim Script.
+From GS Require Import Num EventLoop Kernel Geo Sim Script Mission Dispatcher RandomTrip.
 Extraction Language OCaml.
 Extraction "model.ml"
   mkArith sqdist
@@ -11,4 +11,5 @@ Extraction "model.ml"
   k_start k_step k_run k_steps
   haversine geo_to_cartesian
   sim_hooks sim_start
-  script_react counters0.
+  script_react counters0
+  m_init m_run d_init d_run t_init t_run.
